@@ -48,9 +48,11 @@ BOUNDS = {
              "2x2/2x3 grids (all masks of 2x2) with symbolic origin and symbolic centre inside the extent, remove_projected_centre in {False,True}; "
              "radial minimum: 1..3 symbolic points as ndarray / Grid2DIrregular / Grid2D (1x2 masks), symbolic minima r_A, r_B > 0 of a base class and a "
              "subclass sharing the decorated method (config lookup stubbed) and the real autoconf lookup with minima 0.5 / 2.0; "
-             "decorator stack to_array(transform(relocate)) with symbolic profile centre (translation) on Grid2D (1x2 masks) / Grid2DIrregular (<=2 points)",
+             "decorator stack to_array(transform(relocate)) with symbolic profile centre (translation) on Grid2D (1x2 masks) / Grid2DIrregular (<=2 points); "
+             "histories: two grids with different symbolic coordinates on ONE mask geometry (separate equal mask objects) called A, B, A through "
+             "to_array / to_grid / to_vector_yx / project_grid on the same profile: Grid1D masks of length<=3, Grid2D masks 1x2, 2x2, 1..3 irregular points",
     "thorough": "as quick with Grid2D masks of H*W<=9, Grid1D length<=5, irregular <=5 points, angle set {0,30,45,90,120,170,-100,200,-60}, projections of "
-                "2x2,2x3,3x2,3x3 grids (all masks up to 6 pixels), radial minimum with <=4 points and 2x2 Grid2D masks, stack with 2x2 masks / <=3 points",
+                "2x2,2x3,3x2,3x3 grids (all masks up to 6 pixels), radial minimum with <=4 points and 2x2 Grid2D masks, stack with 2x2 masks / <=3 points, histories with Grid1D length<=4, Grid2D 2x3, <=4 points",
 }
 OUTSIDE = [
     "grids stored natively (store_native=True inputs), over_sample decorator, to_projected",
@@ -67,6 +69,7 @@ STUBS = [
     "harness class SymAngleDeg ((c,s) pair; +-90k exact, %180 / %360 modelled exactly)",
     "autoconf lookup conf.instance['grids']['radial_minimum']['radial_minimum'][cls] replaced by a dict of solver variables in the 'sym' radial-minimum "
     "cases (the 'conf' cases use the real autoconf with a pushed temporary config directory)",
+    "proxies are given a constant __hash__ (POST_INSTALL): dict / tuple key equality in repository code is then decided by the symbolic == (path decision)",
     "mock profile's transformed_to_reference_frame_grid_from (user code in PyAutoGalaxy): translation by the symbolic profile centre",
 ]
 ASSUMPTIONS = [
@@ -94,6 +97,10 @@ def POST_INSTALL():
         return orig(self, y, x, **kw)
 
     shim.NPFacade.arctan2 = arctan2
+    # proxies are unhashable in the engine (TypeError as soon as repository code builds a dict key from a mask origin ...):
+    # a constant hash sends every key comparison to the symbolic __eq__ (SymBool -> path decision), a faithful model of dict lookup
+    V.SymReal.__hash__ = lambda self: 7919
+    V.SymInt.__hash__ = lambda self: 7919
 
 
 def _ensure_config():
@@ -959,11 +966,111 @@ def case_stack(ctx, kind, N, rot=None, H=0, W=0):
     _run(ctx, body_stack, inputs, kw, validate_every=1)
 
 
+# --------------------------------------------------------------------------- histories: several grids on ONE mask geometry
+
+def body_history(inp, family, N, origin_mode="conc"):
+    """two different grids that share the mask geometry (same bits, pixel scales, origin) but hold different coordinates are
+    passed, one after the other (A, B, A), through the same decorated methods in one process: entry k of every call must
+    belong to coordinate k of THAT call's grid"""
+    import autoarray as aa
+    _ensure_config()
+    uf = UserFns(inp)
+    A, E = {}, {}
+    zero = np.float64(0.0)
+    if family == "grid1d":
+        mask = np.array(inp["mask"], dtype=bool).reshape(N)
+        n = int((~mask).sum())
+        o = inp["origin"][0] if origin_mode == "sym" else 0.25
+        xs = [np.asarray(inp["xa"]).reshape(-1)[:n], np.asarray(inp["xb"]).reshape(-1)[:n]]
+        # separate but equal mask objects, like Grid1D.no_mask(...) after Grid1D.uniform_from_zero(...)
+        grids = [aa.Grid1D(values=x.copy(), mask=aa.Mask1D(mask=mask.copy(), pixel_scales=(0.5,), origin=(o,))) for x in xs]
+        refs = [[(zero, x[k]) for k in range(n)] for x in xs]
+        seen_type = "Grid2DIrregular"
+        decs = (("to_array", "scalar", "Array1D"), ("to_grid", "pair", "Grid2D"), ("to_vector_yx", "pair", None),
+                ("to_array", "list_scalar", "Array1D"), ("project_grid", "scalar", "Array1D"))
+    elif family == "grid2d":
+        H, W = N
+        mask = np.array(inp["mask"], dtype=bool).reshape(H, W)
+        n = int((~mask).sum())
+        oy, ox = inp["origin"] if origin_mode == "sym" else (0.25, -0.5)
+        gs = [np.asarray(inp["xa"]).reshape(-1, 2)[:n], np.asarray(inp["xb"]).reshape(-1, 2)[:n]]
+        grids = [aa.Grid2D(values=g.copy(), mask=aa.Mask2D(mask=mask.copy(), pixel_scales=(1.0, 1.0), origin=(oy, ox))) for g in gs]
+        refs = [[(g[k, 0], g[k, 1]) for k in range(n)] for g in gs]
+        seen_type = "Grid2D"
+        decs = (("to_array", "scalar", "Array2D"), ("to_grid", "pair", "Grid2D"), ("to_vector_yx", "pair", "VectorYX2D"),
+                ("to_grid", "list_pair", "Grid2D"))
+    else:
+        n = N
+        gs = [np.asarray(inp["xa"]).reshape(-1, 2)[:n], np.asarray(inp["xb"]).reshape(-1, 2)[:n]]
+        grids = [aa.Grid2DIrregular(values=g.copy()) for g in gs]
+        refs = [[(g[k, 0], g[k, 1]) for k in range(n)] for g in gs]
+        seen_type = "Grid2DIrregular"
+        decs = (("to_array", "scalar", "ArrayIrregular"), ("to_grid", "pair", "Grid2DIrregular"), ("to_vector_yx", "pair", "VectorYX2DIrregular"),
+                ("project_grid", "scalar", "ArrayIrregular"))
+    for dec, kind, cls in decs:
+        log = []
+        # profile without an angle: project_grid then projects along the +x axis itself, like the other decorators
+        P = _profile("C17Profile", _user(uf, log, kind), [getattr(aa.grid_dec, dec)], centre=(0.0, 0.0))
+        prof = P()
+        for step, which in enumerate((0, 1, 0)):
+            key = "%s.%s.call%d_grid%s" % (dec, kind, step, "AB"[which])
+            ref = refs[which]
+            nlog = len(log)
+            res = hx.attempt(lambda: prof.fn(grids[which]))
+            rec = log[-1] if len(log) == nlog + 1 else None
+            A[key + ".calls"] = len(log) - nlog
+            E[key + ".calls"] = 1
+            A[key + ".seen_type"] = rec["type"] if rec else None
+            E[key + ".seen_type"] = seen_type
+            A[key + ".seen"] = rec["coords"] if rec else None
+            E[key + ".seen"] = _pairs(_arr([r[0] for r in ref]), _arr([r[1] for r in ref]))
+            if cls is None:
+                # to_vector_yx has no 1D container: the function is still evaluated on this grid's projected line, then it raises
+                A[key + ".raises"] = res if isinstance(res, hx.Raised) else "returned"
+                E[key + ".raises"] = hx.Raised("NotImplementedError")
+                continue
+            if dec == "project_grid":
+                exp = [rec["ret"]] if rec else [None]
+            else:
+                exp = uf.ret(kind, ref)
+                exp = exp if isinstance(exp, list) else [exp]
+
+            def per_item(kj, r, dec=dec):
+                if family == "grid1d" and dec == "to_array":
+                    A[kj + ".mask"] = hx.attempt(lambda: np.array(r.mask))
+                    E[kj + ".mask"] = mask
+                if family == "grid2d":
+                    A[kj + ".mask"] = hx.attempt(lambda: np.array(r.mask))
+                    E[kj + ".mask"] = mask
+                if dec == "to_vector_yx":
+                    A[kj + ".grid"] = hx.attempt(lambda: _coords(r.grid))
+                    E[kj + ".grid"] = E[key + ".seen"]
+
+            _check_container_list(A, E, key, res, kind, cls, exp, per_item)
+    return A, E
+
+
+def case_history(ctx, family, N, origin_mode="conc"):
+    inputs = {"ftab": []}
+    if family == "grid1d":
+        mask = _sym_mask(ctx, (N,))
+        ctx.set_case(mask=mask.tolist())
+        inputs.update(mask=mask, origin=[V.real("o")], xa=V.real_array("xa", (N,)), xb=V.real_array("xb", (N,)))
+    elif family == "grid2d":
+        H, W = N
+        mask = _sym_mask(ctx, (H, W))
+        ctx.set_case(mask=mask.tolist())
+        inputs.update(mask=mask, origin=[V.real("oy"), V.real("ox")], xa=V.real_array("xa", (H * W, 2)), xb=V.real_array("xb", (H * W, 2)))
+    else:
+        inputs.update(xa=V.real_array("xa", (N, 2)), xb=V.real_array("xb", (N, 2)))
+    _run(ctx, body_history, inputs, {"family": family, "N": N, "origin_mode": origin_mode}, validate_every=4)
+
+
 # --------------------------------------------------------------------------- registry of cases
 
 BODIES = {"case_grid2d": body_grid2d, "case_irregular": body_irregular, "case_grid1d": body_grid1d,
           "case_project2d": body_project2d, "case_relocate": body_relocate, "case_relocate_centre": body_relocate_centre,
-          "case_stack": body_stack}
+          "case_stack": body_stack, "case_history": body_history}
 
 
 def cases(tier):
@@ -1009,9 +1116,17 @@ def cases(tier):
     for N in range(1, (2 if quick else 3) + 1):
         out.append(("case_stack", {"kind": "irregular", "N": N, "rot": None}, NRA))
     out.append(("case_stack", {"kind": "grid2d", "N": 0, "rot": None, "H": 1 if quick else 2, "W": 2}, NRA if quick else dict(NRA, split=4)))
+    # histories (A, B, A) of different grids on one mask geometry
+    for N in range(1, (3 if quick else 4) + 1):
+        out.append(("case_history", {"family": "grid1d", "N": N, "origin_mode": "conc"}))
+        out.append(("case_history", {"family": "irregular", "N": N}))
+    out.append(("case_history", {"family": "grid1d", "N": 2, "origin_mode": "sym"}))
+    for (H, W) in ([(1, 2), (2, 2)] if quick else [(1, 2), (2, 2), (2, 3)]):
+        out.append(("case_history", {"family": "grid2d", "N": [H, W], "origin_mode": "conc"}))
+    out.append(("case_history", {"family": "grid2d", "N": [1, 2], "origin_mode": "sym"}))
     # long cases first (the pool takes tasks in list order)
     rank = {"case_stack": 0, "case_relocate": 1, "case_project2d": 2, "case_grid2d": 3}
-    out.sort(key=lambda c: (rank.get(c[0], 9), -(c[1].get("H", 1) * c[1].get("W", 1) + c[1].get("N", 0))))
+    out.sort(key=lambda c: (rank.get(c[0], 9), -(c[1].get("H", 1) * c[1].get("W", 1) + (c[1].get("N", 0) if isinstance(c[1].get("N", 0), int) else 4))))
     return out
 
 
@@ -1025,8 +1140,11 @@ def replay(cand):
     # tolerance-aware replay: bodies publish per-key tolerances in inp['_tol']
     actual, expected = body(inp, **cand["case_kwargs"])
     tol = inp.get("_tol") or {}
+    only = cand.get("obligation") if cand.get("obligation") in expected else None     # reproduce the reported obligation
     bad = []
     for k in expected:
+        if only is not None and k != only:
+            continue
         if k not in actual or not hx.concrete_equal(actual[k], expected[k], max(1e-7, tol.get(k, 0.0))):
             bad.append(k)
     if bad:
